@@ -38,7 +38,10 @@ def check(path):
             elif parts[0] == "P":
                 form, ln, a, b, c = parts[1], int(parts[2]), p(parts[3]), p(parts[4]), p(parts[5])
                 sel = list(range(ln))[a:b:c]
-                if form == "first":
+                if form == "falsy":
+                    fk = ["false", '""', "[]", "{}", "0", "true", '"x"', None]
+                    want = "[" + ",".join(fk[i % 8] for i in sel if fk[i % 8] is not None) + "]"
+                elif form == "first":
                     want = str(sel[0]) if sel else "N"
                 elif form == "last":
                     want = str(sel[-1]) if sel else "N"
